@@ -94,7 +94,7 @@ def cases(seed, tier, shard, nshards):
             k += 1
     for i in common.sharded(b['n_round'], shard, nshards):
         r = common.rng_for(seed, PROP, i, 'round')
-        d = docs.gen(r, labels=True, refs=False, verbatim=False, tables=False, depth=2, maxsec=5, counters=False)
+        d = docs.gen(r, labels=True, refs=False, verbatim=False, tables=False, depth=2, maxsec=5, counters=False, wide_labels=(0.5 if i % 2 else 0))
         yield {'kind': 'round', 'src': docs.latex(d), 'labels': d['labels'], 'renderer': r.choice(['HTML5', 'XHTML'])}
     for i in common.sharded(b['n_compile'], shard, nshards):
         r = common.rng_for(seed, PROP, i, 'compile')
@@ -309,8 +309,24 @@ def run_round(case, st):
     common.plastex_reset()
     rn = case['renderer']
     other = 'XHTML' if rn == 'HTML5' else 'HTML5'
+    # what the renderer itself says about every labelled object at the moment it saves the label data (node.url / node.ref /
+    # node.id while the renderer's mix-ins are active): the yardstick for what a later restore must give back
+    inrender = {}
+
+    def watch_persist(tex, doc):
+        ctx = doc.context
+        orig = ctx.persist
+
+        def persist(filename, rtype='none'):
+            for name, node in ctx.persistentLabels.items():
+                try:
+                    inrender[name] = {'url': str(node.url), 'id': str(node.id), 'ref': None if node.ref is None else str(node.ref)}
+                except Exception as e:
+                    inrender[name] = {'error': repr(e)}
+            return orig(filename, rtype)
+        ctx.persist = persist
     try:
-        out = R.render(case['src'], rn)
+        out = R.render(case['src'], rn, before_parse=watch_persist)
     except common.CaseTimeout:
         raise
     except Exception as e:
@@ -357,6 +373,12 @@ def run_round(case, st):
             if got != want:
                 st.violation('restored-attributes', case, 'label %s restored as %r, saved %r' % (name, got, want))
                 return {'nontrivial': True}
+            live = inrender.get(name)
+            if live is not None and 'error' not in live:
+                st.counters['restored_vs_live_renderer'] += 1
+                if (str(got['url']), got['ref'] if got['ref'] is None else str(got['ref']), str(got['id'])) != (live['url'], live['ref'], live['id']):
+                    st.violation('restored-differs-from-live-renderer', case, 'label %s restored as %r; while the renderer was active the object had %r' % (name, got, live))
+                    return {'nontrivial': True}
         ctx2 = fresh_ctx()
         call(ctx2.restore, paux, other)
         if ctx2.labels:
